@@ -52,6 +52,23 @@ def churn_script(n, keep):
     return lines
 
 
+def burst_script(rounds, width):
+    """rounds of `width` worlds alive at once next to one long-lived world, then all of them destroyed: many ids are free at the same
+    moment, thousands of worlds in total; every new world must again get an id below 1024"""
+    lines = ['new', 'create 0']
+    k = 1
+    for r in range(rounds):
+        ks = list(range(k, k + width))
+        for j in ks:
+            lines.append('newdefault' if j % 3 else 'new')
+        lines.append('create %d' % ks[0])
+        lines.append('create 0')
+        for j in ks:
+            lines.append('del %d' % j)
+        k += width
+    return lines
+
+
 def tier_a(impl):
     out = []
     for name, blocks in impl:
@@ -133,7 +150,7 @@ def run(tier, seed, replay=None):
     if replay:
         scripts = [(os.path.basename(replay), [l.rstrip('\n') for l in open(replay) if l.strip() and not l.startswith('#')])]
     else:
-        scripts = [('churn', churn_script(1100 if tier == 'quick' else 3000, 3))]
+        scripts = [('churn', churn_script(1100 if tier == 'quick' else 3000, 3)), ('burst', burst_script(130 if tier == 'quick' else 400, 24))]
         scripts += [('g%d' % i, gen_script(rng.fork('w%d' % i), nops, 6)) for i in range(n)]
     cov = {'obligations': pr['obligations'], 'discharged': pr['discharged'], 'theorems': pr['theorems'],
            'checker_cmd': 'make -C coq Properties_C17.vo; world_driver vs extracted Worlds allocator',
